@@ -378,6 +378,53 @@ func main() {
 		tc += typedFamily("named string", []myStr{"", "x", "y"}, tl)
 		r.Set("element_type_family_inputs", tc)
 	}
+	// a less function that panics at its k-th call (the caller recovers): whatever order the slice is
+	// left in, it must still be a permutation of its former contents (sorting moves elements, it never
+	// copies one over another)
+	{
+		pcases := 0
+		for _, n := range []int{2, 3, 5, 8, 12, 13, 20, 33, 70} {
+			for _, pat := range []func(i int) int{func(i int) int { return n - i }, func(i int) int { return (i * 7) % 5 }, func(i int) int { return i % 2 }} {
+				for _, f := range []struct {
+					name string
+					f    func([]E, func(a, b E) bool)
+				}{
+					{"SortFunc", func(s []E, l func(a, b E) bool) { slices.SortFunc(s, l) }},
+					{"SortDescFunc", func(s []E, l func(a, b E) bool) { slices.SortDescFunc(s, l) }},
+					{"SortStableFunc", func(s []E, l func(a, b E) bool) { slices.SortStableFunc(s, l) }},
+					{"SortStableDescFunc", func(s []E, l func(a, b E) bool) { slices.SortStableDescFunc(s, l) }},
+				} {
+					for k := 1; k <= 3*n; k += 1 + k/6 {
+						s := make([]E, n)
+						for i := range s {
+							s[i] = E{pat(i), i}
+						}
+						calls := 0
+						func() {
+							defer func() { recover() }()
+							f.f(s, func(a, b E) bool {
+								if calls++; calls == k {
+									panic("less failed")
+								}
+								return a.K < b.K
+							})
+						}()
+						pcases++
+						e.Call()
+						seen := make([]bool, n)
+						for _, x := range s {
+							if x.T < 0 || x.T >= n || seen[x.T] || x.K != pat(x.T) {
+								e.Fail(f.name+"|not-a-permutation", map[string]any{"fn": f.name, "len": n, "less_panics_at_call": k}, "%s on %d elements whose less function panics at call %d (recovered by the caller) leaves %v: not a permutation of the input", f.name, n, k, s)
+								break
+							}
+							seen[x.T] = true
+						}
+					}
+				}
+			}
+		}
+		r.Set("panicking_less_cases", pcases)
+	}
 	r.Sample("keys [2 0 1 0] -> six sort functions, tagged with original index")
 	// BinarySearch: every ascending slice over {0,2,4} of length <= L x every target -1..5
 	L := ev.Pick(r, 8, 12)
